@@ -466,7 +466,7 @@ def special_layout(g, which):
         for _k in range(ndup if r.random() < 0.5 else 0):
             ops.append({'op': 'duplicate_pvd'})
         early = len(ops) > 0
-        n = r.choice([254, 255, 256, 258] if not cfg.joliet or r.random() < 0.5 else [169, 170, 171, 173])
+        n = r.choice([254, 255, 256, 258, 300] if not cfg.joliet or r.random() < 0.5 else [169, 170, 171, 173, 200])
         flat = r.random() < 0.7
         made = []
         for k in range(n):
